@@ -82,9 +82,10 @@ def check(run):
                     t.join()
                 raise err[0]
             _run_family(run, res[mod].out, family, fn)
+            if mod == 'Attrs' and not q:
+                # longer free sessions on a narrow population (see the cfg's comment); overlaps with the Ehabi TLC run
+                _run_family(run, run.tlc('Attrs', 'Attrs_sess3', workers=2).out, 'attrs', _attrs_case)
         if not q:
-            # longer free sessions on a narrow population (see the cfg's comment)
-            _run_family(run, run.tlc('Attrs', 'Attrs_sess3', workers=w).out, 'attrs', _attrs_case)
             _crosscheck_readelf(run, res['Ehabi'].out)
     finally:
         signal.setitimer(signal.ITIMER_REAL, 0)
@@ -136,7 +137,9 @@ def _run_family(run, path, family, fn):
     if family == 'attrs':
         if not nsess:
             raise core.MachineryError('Attrs emitted no client session')
-        run.extra['client_sessions'] = dict(run.extra.get('client_sessions', {}), **nsess)
+        tot = run.extra.setdefault('client_sessions', {})
+        for d, n in nsess.items():
+            tot[d] = tot.get(d, 0) + n
 
 
 def _one(run, ELFFile, family, fn, case, data, brief, key, sample=False):
@@ -473,6 +476,7 @@ def _attrs_sessions(ef0, case, name, voc, bad0):
     libtags = {}
     for s in sessions:
         lvl, i, j = s['tgt']
+        signal.setitimer(signal.ITIMER_REAL, CASE_TIMEOUT)          # every session has the time budget of a case
 
         def bad(clause, exp, obs, s=s, lvl=lvl):
             # the session travels with the mismatch (replay), the tag names level and discipline
